@@ -1657,6 +1657,16 @@ class Interp:
             meth = self._find_method(base.cls, attr)
             if meth is not None:
                 return FuncV(meth, bound_self=base)
+            # class-level constants (lookup tables, limits) read through the instance
+            for m_ in self.pkg.modules.values():
+                if base.cls in m_.classes:
+                    for ci_ in self.pkg.mro(m_.name, base.cls):
+                        if attr in ci_.class_consts and _literal_like(ci_.class_consts[attr]):
+                            try:
+                                return self.eval(ci_.class_consts[attr], State(), _ModuleScope(ci_.module), 0)
+                            except Exception:
+                                break
+                    break
             if base.name is not None:
                 return Form.sym(f"{base.name}.{attr}")
             if "**" in base.fields and isinstance(base.fields["**"], DictV):
